@@ -11,7 +11,7 @@ TRUSTED = ["CBMC 6.11.0 (goto-cc, cbmc; built-in SAT back end), its va_list/memc
            "spec/osc_spec.h: spec_bundle / spec_encode (executable OSC 1.0 specification)",
            "x86-64 LP64 bit-vector semantics; -DNDEBUG as shipped"]
 ASSUMPTIONS = [
-    "bounded: 0..3 elements per bundle, element kinds from {3 message shapes, blob message, bundle{msg}, bundle{bundle{msg},msg}} "
+    "bounded: 0..3 elements per bundle, element kinds from {3 message shapes, blob message, 132-byte blob message, bundle{msg}, bundle{bundle{msg},msg}} "
     "(nesting depth <= 2); payload bytes, all 64-bit time tags, capacity 0..need+8 symbolic",
     "8 elements and depth 3..4 of the property's quantifier are not explored; the element walk is the same loop at every depth",
 ]
@@ -30,9 +30,10 @@ def sequences(tier):
     seqs = [()]
     seqs += [(a,) for a in KINDS]
     if tier == "quick":
-        seqs += [("KA", "KB"), ("KD", "KC"), ("KC", "KE"), ("KF", "KA"), ("KB", "KB"), ("KE", "KD"),
+        seqs += [("KG",), ("KA", "KG"), ("KG", "KD"), ("KA", "KB"), ("KD", "KC"), ("KC", "KE"), ("KF", "KA"), ("KB", "KB"), ("KE", "KD"),
                  ("KA", "KD", "KC"), ("KE", "KF", "KB"), ("KC", "KC", "KC")]
     else:
+        seqs += [("KG",), ("KA", "KG"), ("KG", "KD"), ("KG", "KG"), ("KE", "KG", "KA")]
         seqs += list(itertools.product(KINDS, repeat=2))
         seqs += list(itertools.product(["KA", "KB", "KC", "KD", "KE", "KF"], repeat=3))
     return seqs
@@ -43,10 +44,11 @@ def bundle_obligations(ctx, pid, propdef, tier):
     obls = []
     for seq in sequences(tier):
         kinds = ",".join(seq + ("KC",) * (4 - len(seq)))
+        big = "KG" in seq
         obls.append(Obl("%s.bundle.%s" % (pid, "_".join(seq) or "empty"), pid, "harness/C08/bundle.c", entry="h_bundle",
-                        defines={"RTOSC_C": raw, "BN_K": str(len(seq)), "BN_KINDS": kinds, propdef: None}, mode="bounded",
+                        defines=dict({"RTOSC_C": raw, "BN_K": str(len(seq)), "BN_KINDS": kinds, propdef: None}, **({"ELMAX": "136"} if big else {})), mode="bounded",
                         bound="<=3 elements, nesting depth <=2, element shapes fixed, payload/time tag/capacity symbolic",
-                        cbmc=["--unwind", "260", "--unwinding-assertions"], timeout=900, mem_gb=8,
+                        cbmc=["--unwind", "460" if big else "260", "--unwinding-assertions"], timeout=1500, mem_gb=10,
                         case={"elements": list(seq)}))
     return obls
 
